@@ -836,8 +836,57 @@ def oracle_int(case, impl):
     return None
 
 
+WIDE_CASES = [{'kind': 'intwide', 'op': op, 'in_len': il, 'out_len': ol, 'be': be}
+              for op, il, ol in (('mul', 32, 64), ('mul', 40, 80), ('sq', 33, 66), ('add', 60, 61), ('id', 64, 64))
+              for be in (False, True)]
+
+
+def oracle_intwide(case):
+    """integer wrappers on operands far beyond what can be tabulated (values of 2^53 and more: nothing in the
+    wrapper may go through floating point): evaluate on chosen vectors against Python integer arithmetic"""
+    import random
+    from cirbo.core.python_function import PyFunction
+    op, il, ol, be = case['op'], case['in_len'], case['out_len'], case['be']
+    rng = random.Random(il * 1000 + ol + be)
+    fns = {'mul': lambda x, y: x * y, 'add': lambda x, y: x + y}
+    vals = [0, 1, (1 << il) - 1, (1 << il) - 2, (1 << (il - 1)) + 1, 0x5555555555555555555555 % (1 << il)] + \
+           [rng.getrandbits(il) for _ in range(6)]
+
+    def bits(v, n):
+        b = [bool((v >> (n - 1 - k)) & 1) for k in range(n)]
+        return b if be else b[::-1]
+    try:
+        if op in fns:
+            p = PyFunction.from_int_binary_func(fns[op], il, ol, big_endian=be)
+            for x in vals:
+                for y in vals[:6]:
+                    got = p.evaluate(bits(x, il) + bits(y, il))
+                    if list(got) != bits(fns[op](x, y) % (1 << ol), ol):
+                        return (f'wrapper.from_int_binary_func: {op} of {il}-bit operands {x}, {y} (big_endian={be}) '
+                                f'gives bits of {bits_value(got, be)}, not {fns[op](x, y) % (1 << ol)}')
+        else:
+            f = (lambda x: x * x) if op == 'sq' else (lambda x: x)
+            p = PyFunction.from_int_unary_func(f, il, ol, big_endian=be)
+            for x in vals:
+                got = p.evaluate(bits(x, il))
+                if list(got) != bits(f(x) % (1 << ol), ol):
+                    return (f'wrapper.from_int_unary_func: {op} of the {il}-bit operand {x} (big_endian={be}) gives '
+                            f'bits of {bits_value(got, be)}, not {f(x) % (1 << ol)}')
+    except Exception as e:  # noqa: BLE001
+        return f'wrapper.wide: raised {type(e).__name__}: {e}'
+    return None
+
+
 def oracle_utils(case):
     from cirbo.core import utils
+    for s_, i_ in ((54, (1 << 53) + 1), (64, (1 << 64) - 1), (64, (1 << 63) + 12345), (80, 3 ** 50), (100, (1 << 99) + 1)):
+        want = [bool((i_ >> (s_ - 1 - k)) & 1) for k in range(s_)]
+        r = call(lambda: list(utils.canonical_index_to_input(i_, s_)), cvec)
+        if r != ['ok', want]:
+            return f'utils.canonical_index_to_input: ({i_},{s_}) is not the {s_}-bit big-endian binary form of the index'
+        r = call(lambda: utils.input_to_canonical_index(list(want)), lambda v: v)
+        if r != ['ok', i_]:
+            return f'utils.input_to_canonical_index: the {s_}-bit form of {i_} gave {r}'
     for n in range(0, 5):
         for i, x in enumerate(vectors(n)):
             r = call(lambda: utils.input_to_canonical_index(list(x)), lambda v: v)
@@ -867,6 +916,8 @@ def oracle(case):
         return oracle_int(case, run_impl(case))
     if k == 'utils':
         return oracle_utils(case)
+    if k == 'intwide':
+        return oracle_intwide(case)
     return None
 
 
